@@ -3,31 +3,34 @@
 import json, os
 HERE = os.path.dirname(os.path.dirname(os.path.abspath(__file__)))
 ALL = ["C%02d" % i for i in range(1, 19)]
+GEN = (" Second tie (regenerated on every run): translate/py2coq.py translates tcp_signatures_match, calculate_window_multiplier, round_frequency, "
+       "guess_distance and should_fingerprint from /repo's CURRENT source to Gallina (fail-closed subset) and coq/Gen/GenP.v proves the generated "
+       "definitions equal to the hand-written models for all inputs, so for these functions the theorems are re-checked against what the code says now.")
 TIE = ("Tie to /repo: the hand-written Gallina model is extracted (ExtrOcamlBasic) and run against the working tree's pyp0f on "
        "boundary-directed generated cases plus exhaustive sweeps of the small sub-domains; every disagreement is a replayable "
        "failing input. Assurance = the weaker of proof and tie.")
 CLAIMED = {
  "C01": dict(text="Coq theorems for ALL signatures x packet signatures x max_dist: tcp_match <> None <-> Matches (declarative rule set incl. "
-                  "version, wildcards, window forms, quirk sets as SETS), exact/fuzzy characterisation, ttl- rule, mask<->set bridge. " + TIE,
+                  "version, wildcards, window forms, quirk sets as SETS), exact/fuzzy characterisation, ttl- rule, mask<->set bridge. " + TIE + GEN,
              note="Trusted: Coq kernel; extraction+driver; generator/worker; hand-written model of tcp_signatures_match/calculate_window_multiplier "
                   "(tied by differential run incl. TCPSignature.parse of the printed text). No axioms.",
              tech="Coq proof (model = declarative spec) + extracted-model differential correspondence", ref="DESIGN.md section 4 C01"),
  "C17": dict(text="Coq theorems for all packet signatures: the multiplier is window/d for the FIRST dividing entry of the documented divisor list "
                   "(both directions), none iff zero window / MSS<100 / no divisor, the list equals the documented sequence, and no multiplier "
-                  "=> mss*N / mtu*N cannot match. " + TIE,
+                  "=> mss*N / mtu*N cannot match. " + TIE + GEN,
              note="Trusted: Coq kernel; extraction+driver; generator/worker; hand-written model of calculate_window_multiplier. No axioms.",
              tech="Coq proof (first-divisor characterisation) + extracted-model differential correspondence", ref="DESIGN.md section 4 C17"),
  "C02": dict(text="Coq theorems for all databases x packets: the single-pass loop with its two accumulators equals the three 'earliest such record' "
                   "searches (specific exact, generic exact, first fuzzy unless class '!'), the result is a matching member of the consulted list, only "
                   "the packet direction's section is read, distance formula and 0..255 range (via the C01 type theorem), packet gate, unloaded "
-                  "database -> DatabaseError. " + TIE,
+                  "database -> DatabaseError. " + TIE + GEN,
              note="Trusted: as C01; the packet signature given to the model is the one the implementation extracted from the same bytes "
                   "(extraction is C03's tie). No axioms.",
              tech="Coq proof (loop = declarative selection) + extracted-model differential correspondence through fingerprint_tcp", ref="DESIGN.md section 4 C02"),
  "C13": dict(text="Coq theorems: verdict iff the gate (both timestamps non-zero, wait window, >= 5 ticks mod 2^32, not the grace case); inside the gate "
                   "in-scale -> rounded tps + uptime fields, out-of-scale -> tps -1 (no verdict on a pure SYN); forward progress by d ticks reads d*1000/ms "
                   "also across the 2^32 wrap, a backward step reads non-positive; the rounding table, positivity, monotonicity and idempotence for EVERY "
-                  "integer frequency >= 0 (no bound); packet gate. " + TIE,
+                  "integer frequency >= 0 (no bound); packet gate. " + TIE + GEN,
              note="Trusted: as C01; floats are replaced by exact rationals (argument in DESIGN.md C13; raw_frequency is compared bit-for-bit with the "
                   "correctly rounded quotient); thresholds assumed sane (0 < min scale, min wait >= 1, grace > 0); clock replaced via time.time_ns. No axioms.",
              tech="Coq proof (mod 2^32 arithmetic, rounding over all Z) + extracted-model differential correspondence", ref="DESIGN.md section 4 C13"),
